@@ -353,6 +353,14 @@ def run(ctx):
     from contracts import c_importparams as cip
     ctx.verify(cip.engine(), cip.VERIFY, replay=cip.replay,
                min_obligations={cip.K_DIR: 5, cip.K_PRE: 22, cip.K_VAL: 6})
+    ctx.verify(cip.prefixed_engine(), cip.VERIFY_PREFIXED, replay=cip.replay, min_obligations={cip.K_PFX: 8})
+    ctx.assumptions.append("import_prefixed: the Prefixed constructor (pydantic validation into a Decimal) is trusted - a "
+                           "call yields a new Prefixed or raises; proved is what it is handed")
+    ctx.verify(cip.params_engine(), cip.VERIFY_PARAMS, replay=cip.replay, min_obligations={cip.K_PRM: 17})
+    from contracts import c_params as _cp
+    ctx.frame_audit("pulse-renaming: the export-side and import-side contracts state one table",
+                    [] if _cp.PULSE_MAP == cip.PULSE_MAP else [("tables differ", 0)],
+                    "the two contracts' renaming tables are not inverse of each other")
     for nm, asm, goal in cip.roundtrip_lemmas():
         ctx.lemma(nm + " (over the contracts of the export side and of the import side)", asm, goal)
     asm, goal = c_import.roundtrip_lemma()
